@@ -2,6 +2,7 @@
 import VDriver.Util
 import VModel.EventParse
 import VModel.EventSpec
+import VModel.EventBuild
 namespace V.Driver.EventOps
 open V V.Json V.GoJson V.Driver V.Redact V.EventParse
 
@@ -257,6 +258,41 @@ def iddiffOp (ver js1 js2 : Bytes) : String :=
     | _, .error (.other w) => if w.startsWith "unmodelled" then "skip:" ++ w else "err:construct"
     | _, _ => "err:construct"
 
+/-- "[hex,hex,…]" -/
+def parseIDList (s : String) : Option (List Bytes) :=
+  let inner := String.ofList ((s.toList.drop 1).dropLast)
+  if inner.isEmpty then some [] else (inner.splitOn ",").mapM unhex
+
+/-- optional JSON argument: `~` = absent; `none` = unparseable -/
+def optJSON (a : String) : Option (Option JVal) :=
+  if a == "~" then some none else
+  match unhex a with
+  | some t => match parse t with
+    | some p => some (some p.toJVal)
+    | none => none
+  | none => none
+
+def buildOp (args : List String) : String :=
+  match args with
+  | [vers, now, originh, kidh, _seed, _rseed, rand16h, sigh, typeh, senderh, roomh, sk, prev, auth, redactsh, depth, contenth, unsignedh, sigsh] =>
+    match now.toNat?, unhex originh, unhex kidh, unhex rand16h, unhex sigh, unhex typeh, unhex senderh, unhex roomh with
+    | some nowN, some origin, some kid, some rand16, some sig, some ty, some sender, some room =>
+      match parseIDList prev, parseIDList auth, unhex redactsh, depth.toInt?, optJSON contenth, optJSON unsignedh, optJSON sigsh with
+      | some prevIDs, some authIDs, some redactsB, some dp, some contentV, some unsignedV, some sigsV =>
+        let stateKey : Option (Option Bytes) := if sk == "~" then some none else (unhex sk).map some
+        match stateKey with
+        | none => "bad-op"
+        | some skv =>
+          let texts := [contenth, unsignedh, sigsh].filterMap (fun a => if a == "~" then none else unhex a)
+          match texts.findSome? textSkip with
+          | some s => s
+          | none =>
+            let pe : EventBuild.Proto := EventBuild.Proto.mk ty sender room skv prevIDs authIDs redactsB dp contentV unsignedV sigsV
+            showParse true true (EventBuild.build H (strBytes vers) pe nowN origin kid rand16 sig)
+      | _, _, _, _, _, _, _ => "bad-op"
+    | _, _, _, _, _, _, _, _ => "bad-op"
+  | _ => "bad-op"
+
 /-- ops (versions plain, texts hex-encoded):
     parse_untrusted <ver> <text>              NewEventFromUntrustedJSON          (+ spec: C04)
     parse_trusted <ver> <redacted> <text>     NewEventFromTrustedJSON
@@ -300,6 +336,7 @@ def handle (op : String) (args : Array String) : Option String :=
     match some (strBytes verh), unhex t1h, unhex t2h with
     | some ver, some t1, some t2 => some (iddiffOp ver t1 t2)
     | _, _, _ => some "bad-op"
+  | "build", as => some (buildOp as)
   | "headered", [red, th] =>
     match unhex th with
     | some t =>
